@@ -41,12 +41,24 @@ func (n *zzNode) Blocks(p *api_service.BlocksParams, opts ...api_service.ClientO
 	return &api_service.BlocksOK{Payload: n.blocksIn(p.FromHeight, p.ToHeight)}, nil
 }
 
+// blocksIn serves every block of [from, to] up to the tip, like a node: scripted blocks where the script has one,
+// empty blocks elsewhere.
 func (n *zzNode) blocksIn(from, to uint64) *models.BlocksResponse {
 	var out []*models.BlockResponse
-	for _, b := range n.blocks {
-		if b.Height >= from && b.Height <= to {
-			out = append(out, b)
+	if to > n.latest {
+		to = n.latest
+	}
+	for h := from; h <= to; h++ {
+		var blk *models.BlockResponse
+		for _, b := range n.blocks {
+			if b.Height == h {
+				blk = b
+			}
 		}
+		if blk == nil {
+			blk = &models.BlockResponse{Height: h}
+		}
+		out = append(out, blk)
 	}
 	return &models.BlocksResponse{Blocks: out}
 }
@@ -182,20 +194,28 @@ func ZZIsBridgeEvent(kind int) (event, batch, valset bool) {
 
 type ZZScript struct {
 	First  uint64
+	Gap    uint64 // empty blocks between First and the scripted ones
 	Kinds  [][]int  // per block
 	Vnonce []string // the valset nonce a block's edit-multisig transactions carry
 	node   *zzNode
 }
 
 func ZZBuildScript(maxBlocks, maxTx, nKinds int) *ZZScript {
+	return ZZBuildScriptGap(maxBlocks, maxTx, nKinds, 0, 0)
+}
+
+// ZZBuildScriptGap: the scripted blocks come after `gap` empty blocks and are followed by `tail` empty blocks (the
+// connector is behind the node).
+func ZZBuildScriptGap(maxBlocks, maxTx, nKinds int, gap, tail uint64) *ZZScript {
 	nBlocks := vrt.Len("blocks", 0, maxBlocks)
 	s := &ZZScript{First: []uint64{0, 7, 250}[vrt.Choose("first.block", 3)]}
-	s.node = &zzNode{latest: s.First + uint64(nBlocks)}
+	s.Gap = gap
+	s.node = &zzNode{latest: s.First + gap + uint64(nBlocks) + tail}
 	for b := 0; b < nBlocks; b++ {
 		bn := string(rune('0' + b))
 		nt := vrt.Len("block"+bn+".txs", 0, maxTx)
 		vn := []string{"5", "9", "12"}[b%3]
-		blk := &models.BlockResponse{Height: s.First + 1 + uint64(b)}
+		blk := &models.BlockResponse{Height: s.First + s.Gap + 1 + uint64(b)}
 		var ks []int
 		for t := 0; t < nt; t++ {
 			k := vrt.Choose("block"+bn+".tx"+string(rune('0'+t)), nKinds)
@@ -214,7 +234,7 @@ func (s *ZZScript) Expect(start context.ZZCursor, h uint64) context.ZZCursor {
 	c := start
 	c.Block = h
 	for b, ks := range s.Kinds {
-		if s.First+1+uint64(b) > h {
+		if s.First+s.Gap+1+uint64(b) > h {
 			break
 		}
 		for _, k := range ks {
@@ -253,7 +273,7 @@ func (s *ZZScript) Latest() uint64              { return s.node.latest }
 func (s *ZZScript) Events(h uint64) []ZZEvent {
 	var out []ZZEvent
 	for b, ks := range s.Kinds {
-		height := s.First + 1 + uint64(b)
+		height := s.First + s.Gap + 1 + uint64(b)
 		if height > h {
 			break
 		}
@@ -269,7 +289,7 @@ func (s *ZZScript) Events(h uint64) []ZZEvent {
 func (s *ZZScript) EventsIn(h uint64) int {
 	n := 0
 	for b, ks := range s.Kinds {
-		if s.First+1+uint64(b) == h {
+		if s.First+s.Gap+1+uint64(b) == h {
 			for _, k := range ks {
 				if ev, _, _ := ZZIsBridgeEvent(k); ev {
 					n++
@@ -394,5 +414,50 @@ func ZZ_C20_LoadStatus() {
 		vrt.Assert("c20.load.restores-last-commit", got == last)
 	default:
 		vrt.Assert("c20.load.damaged-file-gives-configured-start", got == defCur)
+	}
+}
+
+// ZZGapChoice: how far the connector is behind the node (empty blocks before and after the scripted ones): around
+// the 100-block page size, and with the scripted blocks inside the second and third page.
+func ZZGapChoice() (gap, tail uint64) {
+	if vrt.Thorough() {
+		c := [][2]uint64{{98, 0}, {99, 0}, {100, 0}, {101, 0}, {150, 0}, {120, 130}, {201, 0}, {199, 120}, {250, 70}, {30, 300}}[vrt.Choose("gap.t", 10)]
+		return c[0], c[1]
+	}
+	c := [][2]uint64{{99, 0}, {100, 0}, {150, 0}, {120, 130}}[vrt.Choose("gap", 4)]
+	return c[0], c[1]
+}
+
+// ZZ_C20_CatchUpPaging: the catch-up scan when the connector is more than a page (100 blocks) behind the node: every
+// block is scanned once, events behind the first page get the right nonce.
+func ZZ_C20_CatchUpPaging() {
+	gap, tail := ZZGapChoice()
+	s := ZZBuildScriptGap(2, 1, 3, gap, tail)
+	start := context.ZZCursor{Block: s.First, EventNonce: 1 + vrt.Uint64Below("start.eventNonce", 1<<56),
+		BatchNonce: vrt.Uint64Below("start.batchNonce", 1<<56), ValsetNonce: vrt.Uint64Below("start.valsetNonce", 1<<56)}
+	path := ZZStatusPath()
+	if !vrt.Symbolic() {
+		defer os.RemoveAll(filepath.Dir(path))
+	}
+	ctx := context.Context{MinterMultisigAddr: ZZMultisig, MinterClient: zzClient(s.node), Logger: log.NewNopLogger()}
+	ctx.LoadStatus(path, config.MinterConfig{StartBlock: start.Block, StartEventNonce: start.EventNonce, StartBatchNonce: start.BatchNonce, StartValsetNonce: start.ValsetNonce})
+	acked := vrt.Uint64Below("acknowledged.nonce", 1<<57)
+	out := GetLatestMinterBlockAndNonce(ctx, acked)
+	vrt.Reach("c20.paging.catchup.returned")
+	got := out.ZZCursor()
+	vrt.Assert("c20.paging.catchup.block-in-range", got.Block >= s.First && got.Block <= s.node.latest)
+	if got.Block < s.First || got.Block > s.node.latest {
+		return
+	}
+	want := s.Expect(start, got.Block)
+	cls := ""
+	if got.Block < s.node.latest && s.EventsIn(got.Block+1) >= 2 {
+		cls = "[scan stopped inside a block that holds several bridge events]"
+	}
+	vrt.Check("c20.paging.catchup.cursor-consistent"+cls, got == want)
+	if got.Block < s.node.latest {
+		vrt.Assert("c20.paging.catchup.stops-only-after-acknowledged", acked > 0 && got.EventNonce > acked)
+	} else {
+		vrt.Reach("c20.paging.catchup.tip")
 	}
 }
